@@ -44,6 +44,10 @@ if os.path.exists(os.path.join(os.path.dirname(os.path.dirname(os.path.dirname(o
 if os.path.exists(os.path.join(os.path.dirname(os.path.dirname(os.path.dirname(os.path.abspath(__file__)))),
                                "lean", "WV", "Props", "C06_Attach.lean")):
     PROP_MODULES.append("WV.Props.C06_Attach")
+# the general consumer-threshold theorems (agents/deepC06_integration.md)
+if os.path.exists(os.path.join(os.path.dirname(os.path.dirname(os.path.dirname(os.path.abspath(__file__)))),
+                               "lean", "WV", "Props", "C06_Thresh.lean")):
+    PROP_MODULES.append("WV.Props.C06_Thresh")
 TRUSTED = ["XSalsa20-Poly1305 (NaCl SecretBox): an interface in Lean whose ideal-AEAD properties are hypotheses "
            "(only the honest sealings open); the harness runs real NaCl against the ideal table on every case",
            "HKDF: injective in CTXinfo (hypothesis); the CTXinfo strings themselves are regenerated from /repo",
@@ -71,7 +75,14 @@ RULE = ("two real Connections (TransitSender/TransitReceiver owners, real handsh
         "resumeProducing from callbacks and at top level, consumers that pause their producer in write() - combined with "
         "every manipulation class and coalesced segments), connectionLost and "
         "close at arbitrary points, the loss reported as FIN / reset / without argument, the stream cut at every byte position "
-        "with consumers and reads outstanding; the order in which records leave the connection is observed by instrumenting the "
+        "with consumers and reads outstanding; consumer sessions (consumer_threshold_exact): connectConsumer / writeToFile over a "
+        "backlog of queued records with the count below / equal to / above the bytes of the backlog, reached in the middle of "
+        "the backlog, by a later record or never, expected None / 0, zero-length records with small counts, consumers "
+        "disconnected by the application and re-attached, re-attached from the Deferred's callback, a second attach while one "
+        "is attached, reads outstanding or served before the attach (hand-picked, random around the partial sums of the "
+        "stream, and exhaustively for <= 3 records of 0..2 bytes x every attach position x every count); every consumer object "
+        "records which records it was given, when it was unregistered and when its Deferred fired; "
+        "the order in which records leave the connection is observed by instrumenting the "
         "inbound queue in-process; "
         "non-trivial = at least one record accepted or one manipulation detected; distinct = distinct canonical traces")
 
@@ -169,52 +180,72 @@ class LogConsumer:
     """`fc`: a flow-controlled consumer (IPushProducer contract): it asks its producer to pause from inside every
     write(); somebody resumes the producer on a later turn"""
 
-    def __init__(self, side, fc=False, ready=False):
+    def __init__(self, side, fc=False, ready=False, trace=None):
         self.side = side
         self.data = []
         self.fc = fc
         self.ready = ready      # says "ready" by resuming its producer from registerProducer()
         self.producer = None
+        self.trace = trace if trace is not None else new_trace(None)
 
     def registerProducer(self, producer, streaming):
         assert streaming
         self.producer = producer
         self.side.ev.append("reg")
+        self.trace["reg"] += 1
         if self.ready:
             producer.resumeProducing()
 
     def unregisterProducer(self):
         self.side.ev.append("unreg")
+        self.trace["unreg_at"].append(len(self.trace["w"]))
 
     def write(self, b):
         self.data.append(bytes(b))
         self.side.ev.append("w=" + hx(bytes(b)))
-        self.side.note_write(bytes(b))
+        note_write(self.side, self.trace, bytes(b))
         if self.fc:
             self.producer.pauseProducing()
 
 
+def new_trace(expected):
+    """what one consumer object saw, for the threshold oracle: `w` = its write() calls as (index of the record in the
+    order in which records leave the connection | None for the empty kick of expected=0, bytes); `unreg_at` = number of
+    writes seen at each unregisterProducer(); `reg` = registerProducer() calls"""
+    return {"expected": expected, "w": [], "unreg_at": [], "reg": 0}
+
+
+def note_write(side, trace, b):
+    # the record being written is the one that left the connection last (the spies on the inbound queue and on
+    # recordReceived note it just before _writeToConsumer runs); the kick of expected=0 is no record
+    trace["w"].append((None if trace["expected"] == 0 else len(side.surf) - 1, b))
+
+
 class LogFile:
-    def __init__(self, side):
+    def __init__(self, side, trace=None):
         self.side = side
         self.data = []
+        self.trace = trace if trace is not None else new_trace(None)
 
     def write(self, b):
         self.data.append(bytes(b))
         self.side.ev.append("w=" + hx(bytes(b)))
-        self.side.note_write(bytes(b))
+        note_write(self.side, self.trace, bytes(b))
 
 
-def _logging_file_consumer(side):
+def _logging_file_consumer(side, trace=None):
     base = transit.FileConsumer
+    trace = trace if trace is not None else new_trace(None)
 
     class LoggingFileConsumer(base):
         def registerProducer(self, producer, streaming):
             side.ev.append("reg")
+            trace["reg"] += 1
             return base.registerProducer(self, producer, streaming)
 
         def unregisterProducer(self):
             side.ev.append("unreg")
+            trace["unreg_at"].append(len(trace["w"]))
             return base.unregisterProducer(self)
     return LoggingFileConsumer
 
@@ -244,6 +275,7 @@ class Side:
         # queue and every record handed straight to an attached consumer (observed by instrumenting the object,
         # inside this process only)
         self.surf = []
+        self.second_attach = []   # every connectConsumer call that found a consumer attached, or raised
         side = self
 
         class SpyDeque(deque):
@@ -266,9 +298,6 @@ class Side:
                 self.surf.append(bytes(record))
             return orig_rr(record)
         self.conn.recordReceived = spy_record_received
-
-    def note_write(self, b):
-        pass
 
     def handshake_bytes(self):
         if self.role == "S":
@@ -316,6 +345,7 @@ class Side:
             for rec in self.consumers:
                 if cur is not None and (rec["obj"] is cur or getattr(cur, "_f", None) is rec["obj"]):
                     rec["detached"] = True      # the application gave up on this consumer: its Deferred is dropped
+                    rec["writes_at_detach"] = len(rec["trace"]["w"])
             self.conn.disconnectConsumer()
         elif k == "x":
             self.closed = True
@@ -347,24 +377,48 @@ class Side:
 
     def consume(self, expected, mode, on_done):
         holder = {}
-        if mode == "file":
-            f = LogFile(self)
-            orig = transit.FileConsumer
-            transit.FileConsumer = _logging_file_consumer(self)
-            try:
-                d = self.conn.writeToFile(f, expected, progress=self._progress, hasher=self.hasher.update)
-            finally:
-                transit.FileConsumer = orig
-            obj = f
-        else:
-            obj = LogConsumer(self, fc=(mode == "fc"), ready=(mode == "ready"))
-            d = self.conn.connectConsumer(obj, expected)
-        rec = dict(obj=obj, d=d, expected=expected, holder=holder, mode=mode, after_lost=getattr(self, "lost_at_id", None) is not None)
+        c = self.conn
+        trace = new_trace(expected)
+        trace["backlog"] = [bytes(x) for x in c._inbound_records]     # what is queued when connectConsumer is called
+        # a consumer attached already: the call must raise RuntimeError and change nothing
+        busy = c._consumer is not None
+        before = (c._consumer, c._consumer_bytes_written, c._consumer_bytes_expected, c._consumer_deferred,
+                  len(c._inbound_records), len(self.surf)) if busy else None
+        try:
+            if mode == "file":
+                f = LogFile(self, trace)
+                orig = transit.FileConsumer
+                transit.FileConsumer = _logging_file_consumer(self, trace)
+                try:
+                    d = c.writeToFile(f, expected, progress=self._progress, hasher=self.hasher.update)
+                finally:
+                    transit.FileConsumer = orig
+                obj = f
+            else:
+                obj = LogConsumer(self, fc=(mode == "fc"), ready=(mode == "ready"), trace=trace)
+                d = c.connectConsumer(obj, expected)
+        except Exception as e:
+            after = (c._consumer, c._consumer_bytes_written, c._consumer_bytes_expected, c._consumer_deferred,
+                     len(c._inbound_records), len(self.surf))
+            self.second_attach.append(dict(busy=busy, exc=type(e).__name__, unchanged=(before == after),
+                                           touched=(trace["reg"], len(trace["w"]), len(trace["unreg_at"])),
+                                           expected=expected))
+            raise
+        if busy:
+            self.second_attach.append(dict(busy=True, exc=None, unchanged=False, touched=(trace["reg"], len(trace["w"]), 0),
+                                           expected=expected))
+        rec = dict(obj=obj, d=d, expected=expected, holder=holder, mode=mode, trace=trace,
+                   after_lost=getattr(self, "lost_at_id", None) is not None,
+                   fired_in_call=(d is not None and d.called), seq=len(self.consumers))
         self.consumers.append(rec)
         if d is not None:
             def cb(n):
                 holder["done"] = n
                 holder["at"] = sum(len(x) for x in obj.data)
+                holder["calls"] = holder.get("calls", 0) + 1
+                holder["writes_at_done"] = len(trace["w"])
+                holder["unreg_at_done"] = len(trace["unreg_at"])
+                holder["consumer_at_done"] = c._consumer
                 self.ev.append(f"cd={n}")
                 self.run_script(on_done)
 
@@ -573,6 +627,131 @@ def is_subsequence(xs, ys):
     return all(any(x == y for y in it) for x in xs)
 
 
+def threshold_oracle(rcv, tags):
+    """The property's threshold clause on the real run.  For every connectConsumer / writeToFile call that attached:
+    the consumer is given consecutive records of the stream in the order in which they leave the connection — the
+    queued backlog first —; with a count N it is unregistered exactly at the first record with which its own running
+    total (from zero) is >= N, its Deferred fires exactly once, there and then, with that total, and it is given
+    nothing afterwards; without that it stays attached (until the application disconnects it) and the Deferred does not
+    fire.  A connectConsumer call that finds a consumer attached raises RuntimeError and changes nothing.  The records
+    no consumer was given are exactly what the reads obtained, in issue order, and what is still queued."""
+    out = []
+    surf = rcv.surf
+
+    def short(bs):
+        return [f"{len(b)}:{b[:6].hex()}" for b in bs[:8]]
+    taken = set()
+    for rec in rcv.consumers:
+        tr, h, ex = rec["trace"], rec["holder"], rec["expected"]
+        who = f"consumer #{rec['seq']} ({rec['mode']}, expected={ex})"
+        w = tr["w"]
+        recs = [(i, b) for i, b in w if i is not None]
+        # registered exactly once
+        if tr["reg"] != 1:
+            out.append(("consumer-register", f"{who}: registerProducer called {tr['reg']} times"))
+        # consecutive records of the stream, in order, each the record that had just left the connection
+        for j, (i, b) in enumerate(recs):
+            if i != recs[0][0] + j or not (0 <= i < len(surf)) or surf[i] != b:
+                out.append(("consumer-not-the-stream",
+                            f"{who}: write #{j} is {len(b)}:{b[:6].hex()} at stream position {i}; the consumer must be given "
+                            f"consecutive records from position {recs[0][0]} on: {short(surf[recs[0][0]:recs[0][0] + len(recs)])}"))
+                break
+        taken.update(i for i, _ in recs)
+        sizes = [len(b) for _, b in w]
+        total = sum(sizes)
+        # where the count is reached by this consumer's own writes, counted from zero
+        reach = None
+        if ex is not None:
+            run = 0
+            for j, n in enumerate(sizes):
+                run += n
+                if run >= ex:
+                    reach = j
+                    break
+        detached = bool(rec.get("detached"))
+        if ex == 0:
+            if [b for _, b in w] != [b""] or [i for i, _ in w] != [None]:
+                out.append(("consumer-threshold-exact", f"{who}: expected=0 wants exactly one empty write, got {short([b for _, b in w])}"))
+        if reach is not None:
+            # unregistered right after write #reach, never written to again, Deferred fired once with the real total
+            if len(w) != reach + 1:
+                out.append(("consumer-written-after-count",
+                            f"{who}: the running total reached {ex} with write #{reach} (sizes {sizes[:reach + 1]}) but "
+                            f"{len(w) - reach - 1} more write(s) followed: {sizes[reach + 1:][:8]}"))
+            if tr["unreg_at"][:1] != [reach + 1] or (len(tr["unreg_at"]) != 1 and not detached):
+                out.append(("consumer-threshold-exact",
+                            f"{who}: total reached {ex} with write #{reach} (sizes {sizes[:reach + 1]}); unregisterProducer must "
+                            f"be called once, right after it; it was called after writes {tr['unreg_at']}"))
+            want = sum(sizes[:reach + 1])
+            if h.get("done") != want or h.get("calls") != 1 or "fail" in h:
+                out.append(("consumer-threshold-exact",
+                            f"{who}: total reached {ex} with write #{reach} (sizes {sizes[:reach + 1]}): the Deferred must fire "
+                            f"once with {want}; done={h.get('done')} calls={h.get('calls')} fail={h.get('fail')}"))
+            elif h.get("writes_at_done") != reach + 1 or h.get("unreg_at_done") != 1 or h.get("consumer_at_done") is not None:
+                out.append(("consumer-threshold-exact",
+                            f"{who}: the Deferred's callback ran after {h.get('writes_at_done')} writes / "
+                            f"{h.get('unreg_at_done')} unregisterProducer calls, consumer still attached="
+                            f"{h.get('consumer_at_done') is not None}; it must run after write #{reach}, unregistered"))
+        else:
+            if "done" in h:
+                out.append(("consumer-threshold-exact",
+                            f"{who}: the Deferred fired with {h['done']} although the running total {total} (sizes {sizes[:8]}) "
+                            f"never reached {ex}"))
+            if len(tr["unreg_at"]) != (1 if detached else 0):
+                out.append(("consumer-threshold-exact",
+                            f"{who}: count not reached (total {total}), disconnected by the application={detached}, but "
+                            f"unregisterProducer was called after writes {tr['unreg_at']}"))
+        if tr["unreg_at"] and len(w) != tr["unreg_at"][0]:
+            out.append(("consumer-written-after-disconnect",
+                        f"{who}: unregistered after {tr['unreg_at'][0]} writes but written to {len(w)} times in all"))
+        # distribution: where the backlog stands relative to the count, how the session ended
+        q = tr.get("backlog", [])
+        bq = sum(len(x) for x in q)
+        if ex is None:
+            tags.append("thr:expected-none")
+        elif ex == 0:
+            tags.append("thr:expected-0")
+        else:
+            if q and rec["mode"] != "ready":
+                tags.append("thr:backlog-" + ("lt" if bq < ex else "eq" if bq == ex else "gt") + "-N")
+                if reach is not None and reach + 1 < len(q):
+                    tags.append("thr:reached-mid-backlog")
+            tags.append("thr:" + ("pending" if reach is None else "reached-exact" if sum(sizes[:reach + 1]) == ex
+                                  else "reached-over"))
+            if ex <= 4 and 0 in sizes:
+                tags.append("thr:zero-length-record-small-N")
+        if q and rec["mode"] != "ready":
+            tags.append("thr:attach-over-backlog")
+        if detached:
+            tags.append("thr:detached-by-app")
+        prev = rcv.consumers[:rec["seq"]]
+        if any(p.get("detached") for p in prev):
+            tags.append("thr:reattach-after-detach")
+        elif prev:
+            tags.append("thr:reattach-after-done" if any("done" in p["holder"] for p in prev) else "thr:another-consumer")
+        if rec["fired_in_call"]:
+            tags.append("thr:fired-inside-connectConsumer")
+    # a second connectConsumer while one is attached: RuntimeError, nothing touched
+    for sa in rcv.second_attach:
+        if sa["busy"]:
+            tags.append("thr:second-attach")
+            if sa["exc"] != "RuntimeError" or not sa["unchanged"] or sa["touched"] != (0, 0, 0):
+                out.append(("second-attach",
+                            f"connectConsumer(expected={sa['expected']}) while a consumer is attached: must raise RuntimeError and "
+                            f"change nothing; raised={sa['exc']} connection state unchanged={sa['unchanged']} new consumer "
+                            f"(registerProducer, write, unregisterProducer) calls={sa['touched']}"))
+        elif sa["exc"] is not None:
+            out.append(("attach-raised", f"connectConsumer(expected={sa['expected']}) with no consumer attached raised {sa['exc']}"))
+    # what no consumer was given is what the reads obtained, in the order the reads were issued
+    got_reads = [rcv.read_result[i][1] for i in sorted(rcv.read_result) if rcv.read_result[i][0] == "ok"]
+    rest = [surf[i] for i in range(len(surf)) if i not in taken]
+    if rest != got_reads:
+        out.append(("reads-not-the-rest",
+                    f"records that left the connection and were not written to a consumer: {short(rest)}; the reads, in issue "
+                    f"order, obtained {short(got_reads)}"))
+    return out
+
+
 def run_case(case):
     rnd = random.Random(case.get("mseed", 0))
     snd_role = case["dir"]                  # who sends the records
@@ -635,6 +814,8 @@ def run_case(case):
     tags.append("chunk:" + (case["chunk"].split(":")[0] if isinstance(case["chunk"], str) else "cuts"))
     if case.get("backlog"):
         tags.append(f"backlog:{case['backlog']}:{len(recs)}")
+    if case.get("cls"):
+        tags.append("class:thr-" + case["cls"])
 
     # ---- feed
     excs = []          # exception names raised by dataReceived, in order
@@ -828,6 +1009,9 @@ def run_case(case):
         if rec["mode"] == "file":
             if rcv.progress != sum(len(x) for r2 in rcv.consumers if r2["mode"] == "file" for x in r2["obj"].data):
                 viol.append(("consumer-bytes", "progress() total differs from the bytes written"))
+    # ---- the threshold clause, consumer by consumer, on what each consumer object itself saw (consumer_threshold_exact):
+    # which records it was given, where it was unregistered, when and with what its Deferred fired
+    viol.extend(threshold_oracle(rcv, tags))
     if rcv.consumers and any(r["mode"] == "file" for r in rcv.consumers):
         hh = hashlib.sha256()
         for r2 in rcv.consumers:
@@ -1229,18 +1413,165 @@ def rng_free_chunk(p):
     return ["all", "aligned", "rand", "one"][p % 4]
 
 
+# ---------------------------------------------------------------------------
+# consumer sessions: attach over a backlog, counts around the backlog, detach / re-attach, second attach
+
+def _thr_case(sizes, app, cls, chunk="aligned", d="S", seed=0, **kw):
+    c = dict(kind="stream", dir=d, recs=[[sz, seed + i] for i, sz in enumerate(sizes)], chunk=chunk, manip=None, app=app,
+             cls=cls, mseed=seed)
+    c.update(kw)
+    return c
+
+
+def threshold_corpus():
+    """hand-picked consumer sessions (witnesses of `consumer_threshold_exact`): the count below / equal to / above the
+    bytes of the backlog, reached in the middle of the backlog, by a later record, never; expected None / 0; detached
+    and re-attached; a second attach; zero-length records with a small count"""
+    out = []
+    C = lambda ex, kids=(), mode="consumer": ["c", ex, mode, list(kids)]     # noqa: E731
+    R = lambda kids=(): ["r", list(kids)]                                     # noqa: E731
+    sizes = [3, 0, 1, 2, 2]      # partial sums 3 3 4 6 8
+    for pos, nq in ((-1, 0), (1, 2), (2, 3), ("end", 5)):
+        for ex in (None, 0, 1, 2, 3, 4, 5, 6, 7, 8, 9):
+            mode = ["consumer", "file", "fc"][(nq + (ex or 0)) % 3]
+            out.append(_thr_case(sizes, [[pos, ["call", [C(ex, [], mode)]]], ["end", ["call", [R([R()])]]]],
+                                 f"backlog{nq}", d="S" if (ex or 0) % 2 else "R"))
+    # the Deferred's callback reads / re-attaches; reached inside connectConsumer and later
+    for pos in (1, "end"):
+        for ex, ex2 in ((3, 1), (4, 2), (4, None), (6, 0), (2, 7)):
+            out.append(_thr_case(sizes, [[pos, ["call", [C(ex, [C(ex2, [R()])])]]], ["end", ["call", [R()]]]], "reattach-from-callback"))
+    # detach by hand, re-attach (count starts from zero), also in one and the same call
+    for ex2 in (None, 1, 2, 3, 4, 5):
+        out.append(_thr_case(sizes, [[-1, ["call", [C(None)]]], [1, ["call", [["d"]]]], [2, ["call", [C(ex2)]]],
+                                     ["end", ["call", [R()]]]], "detach-reattach"))
+        out.append(_thr_case(sizes, [[-1, ["call", [C(7, [R()])]]], [2, ["call", [["d"], C(ex2, [R()], "file")]]],
+                                     ["end", ["call", [R()]]]], "detach-reattach", d="R"))
+    # a second attach (RuntimeError), at top level and from a read callback; the first consumer goes on
+    for ex in (None, 4, 8, 20):
+        out.append(_thr_case(sizes, [[-1, ["call", [C(ex)]]], [0, ["call", [C(1), R()]]], ["end", ["call", [R()]]]], "second-attach"))
+        out.append(_thr_case(sizes, [[-1, ["call", [R([C(ex), C(2, [R()]), R()])]]], ["end", ["call", [R()]]]], "second-attach", d="R"))
+    # zero-length records and a small count
+    for zs in ([0, 0, 1, 0], [0, 0, 0], [0, 1, 0, 1, 0], [1, 0, 0, 1]):
+        for ex in (0, 1, 2):
+            for pos in (-1, 1, "end"):
+                out.append(_thr_case(zs, [[pos, ["call", [C(ex)]]], ["end", ["call", [R([R()])]]]], "zero-length"))
+    # reads outstanding when the consumer is attached, reads served before
+    out.append(_thr_case(sizes, [[-1, ["call", [R(), R()]]], [2, ["call", [C(3)]]], ["end", ["call", [R()]]]], "reads-before"))
+    out.append(_thr_case(sizes, [[-1, ["call", [R()]]], ["end", ["call", [C(2, [R()]), R()]]]], "reads-before"))
+    out.append(_thr_case(sizes, [[-1, ["call", [R([C(4, [R()])])]]], ["end", ["call", [R()]]]], "reads-before"))
+    # the same with the stream in one chunk / byte by byte (attach positions are chunk indices)
+    for ch in ("all", "one"):
+        for ex in (None, 0, 3, 4, 8, 9):
+            out.append(_thr_case(sizes, [["end", ["call", [C(ex, [R()])]]], ["end", ["call", [R()]]]], "backlog5", chunk=ch))
+            out.append(_thr_case(sizes, [[-1, ["call", [C(ex, [R()])]]], ["end", ["call", [R()]]]], "backlog0", chunk=ch))
+    return out
+
+
+def gen_threshold_case(rng):
+    """random consumer sessions; counts are drawn around the partial sums of what can still reach the consumer"""
+    modes = ["consumer", "consumer", "file", "fc"]
+    cls = rng.choice(["backlog", "backlog", "backlog", "detach-reattach", "second-attach", "none", "zero-length",
+                      "reattach-from-callback", "reads-before"])
+    n = rng.randrange(1, 9)
+    pool = [0, 0, 1, 1, 2, 3, 5, 16, 17, 40] if cls != "zero-length" else [0, 0, 0, 1]
+    sizes = [rng.choice(pool) for _ in range(n)]
+    chunk = rng.choice(["aligned", "aligned", "aligned", "aligned", "all", "one", "rand"])
+    if chunk == "aligned":
+        positions = [-1] + list(range(n)) + ["end"]
+    elif chunk == "all":
+        positions = [-1, 0, "end"]
+    else:
+        positions = [-1, 0, 1, 3, 20, 44, 45, 46, 47, 60, 91, 92, 150, "end"]
+    order = {p: i for i, p in enumerate(positions)}
+    p1 = rng.choice(positions)
+    later = [p for p in positions if order[p] >= order[p1]]
+
+    def around(xs):
+        sums, run = [], 0
+        for x in xs:
+            run += x
+            sums.append(run)
+        cands = [None, 0, 1, run, run + 1, max(run - 1, 0)]
+        for t in sums:
+            cands += [t, t + 1, max(t - 1, 0)]
+        return rng.choice(cands)
+    kids = lambda: rng.choice([[], [], [["r", []]], [chain(1)], [["r", []], ["r", []]]])   # noqa: E731
+    app = []
+    nreads = 0
+    if cls == "reads-before":
+        nreads = rng.randrange(1, 4)
+        app.append([-1, ["call", [["r", kids() if rng.random() < 0.3 else []] for _ in range(nreads)]]])
+    rest = sizes[nreads:] if nreads <= len(sizes) else []
+    ex = around(rest)
+    if cls == "none":
+        ex = None
+    mode = rng.choice(modes)
+    if cls == "reattach-from-callback":
+        app.append([p1, ["call", [["c", ex if ex is not None else around(rest[:2]), mode,
+                                   [["c", around(rest[1:]), rng.choice(modes), kids()]] + kids()]]]])
+    elif cls == "detach-reattach":
+        p2 = rng.choice(later)
+        p3 = rng.choice([p for p in positions if order[p] >= order[p2]])
+        first = rng.choice([None, None, sum(sizes) + 1, around(rest)])
+        app.append([p1, ["call", [["c", first, mode, kids()]]]])
+        if p3 == p2 or rng.random() < 0.4:
+            app.append([p2, ["call", [["d"], ["c", around(rest[1:]), rng.choice(modes), kids()]]]])
+        else:
+            app.append([p2, ["call", [["d"]]]])
+            app.append([p3, ["call", [["c", around(rest[1:]), rng.choice(modes), kids()]]]])
+    elif cls == "second-attach":
+        app.append([p1, ["call", [["c", rng.choice([None, sum(sizes) + 5, around(rest)]), mode, kids()]]]])
+        p2 = rng.choice(later)
+        second = ["c", around(rest), rng.choice(modes), kids()]
+        app.append([p2, ["call", rng.choice([[second], [second, ["r", []]], [["r", [second, ["r", []]]]]])]])
+    else:
+        app.append([p1, ["call", [["c", ex, mode, kids()]]]])
+        if cls == "none" and rng.random() < 0.6:
+            app.append([rng.choice(later), ["call", [["d"]] + kids()]])
+    if rng.random() < 0.7:
+        app.append(["end", ["call", [chain(rng.randrange(0, 3))]]])
+    c = _thr_case(sizes, app, cls, chunk=chunk, d=rng.choice(["S", "R"]), seed=rng.randrange(1000))
+    if rng.random() < 0.15:
+        app.append([rng.choice(positions), ["lost"]])
+        c["loss"] = rng.choice(["done", "reset", "none"])
+    if rng.random() < 0.2:
+        c["late_reads"] = rng.randrange(1, 3)
+    return c
+
+
+def threshold_exhaustive():
+    """small scope, complete: every list of at most 3 records of 0..2 bytes, every attach position, every count from 0
+    to one more than the bytes of the stream"""
+    import itertools
+    out = []
+    for n in range(0, 4):
+        for sizes in itertools.product((0, 1, 2), repeat=n):
+            total = sum(sizes)
+            for pos in [-1] + list(range(n)) + ["end"]:
+                for ex in [None] + list(range(0, total + 2)):
+                    out.append(_thr_case(list(sizes), [[pos, ["call", [["c", ex, "consumer", [["r", []]]]]]],
+                                                        ["end", ["call", [["r", []]]]]], "exhaustive",
+                                         d="S" if (n + total) % 2 else "R"))
+    return out
+
+
 def cases(rng, tier):
-    out = corpus() + hold_cases() + backlog_cases()
+    out = corpus() + hold_cases() + backlog_cases() + threshold_corpus()
     n = 1 if tier == "quick" else 25
     for _ in range(140 * n):
         out.append(gen_case(rng, adversarial=False))
+    for _ in range(160 * n):
+        out.append(gen_threshold_case(rng))
     for _ in range(260 * n):
         out.append(gen_case(rng, adversarial=True))
     if tier == "thorough":
         out += exhaustive_chunkings()
         out += every_point()
         out += every_cut()
+        out += threshold_exhaustive()
     else:
+        thr = threshold_exhaustive()
+        out += [thr[i] for i in sorted(rng.sample(range(len(thr)), 80))]
         cuts = every_cut()
         fixed = {0, 2, 10, 30, 45, 47, 48, 91, 100, 137}    # record boundaries, length prefix, nonce, MAC, ciphertext, no cut
         out += [c for c in cuts if c["manip"][1] in fixed]
@@ -1258,12 +1589,12 @@ def search(rng, seconds, seeds):
     t0 = time.time()
     for c in seeds:
         yield c, run_case(c)
-    for c in corpus() + hold_cases() + backlog_cases() + every_cut() + every_point():
+    for c in corpus() + threshold_corpus() + hold_cases() + backlog_cases() + every_cut() + every_point() + threshold_exhaustive():
         yield c, run_case(c)
         if time.time() - t0 > seconds:
             return
     while time.time() - t0 < seconds:
-        c = gen_case(rng, adversarial=rng.random() < 0.6)
+        c = gen_threshold_case(rng) if rng.random() < 0.3 else gen_case(rng, adversarial=rng.random() < 0.6)
         yield c, run_case(c)
 
 
